@@ -38,6 +38,8 @@ REQUIRED_MONITORS = ['forced:init-keyword', 'forced:config',
                      'forced:config-object-reused',
                      'forced:parse-argument', 'fallback', 'no-two-full',
                      'forced:keyword-over-config-layout',
+                     'fallback:reparse-after-ocr',
+                     'fallback:required-by-keyword',
                      'hook:ChunkParser.__init__', 'hook:parse_safe']
 
 EXTRA_CFG = ['', '', '', 'segment', 'sec_within', 'segment,sec_within',
@@ -175,8 +177,20 @@ def gen_fallback(rng):
                 text = text[:a] + text[b:]
         cfg = rng.choice(['', '', 'sec_within', 'sec_colon_cautious',
                           'parse_qq'])
-    return {'fallback': kind, 'text': text, 'cfg': cfg,
+    case = {'fallback': kind, 'text': text, 'cfg': cfg,
             'layout': base['layout']}
+    r = rng.random()
+    if kind == 'colon-required' and r < 0.3:
+        case['how'] = 'required-by-keyword-over-cautious'
+    elif kind == 'no-twprge' and r < 0.4:
+        # every Twp/Rge present, but legible only to the OCR scrubber
+        t2 = base['text']
+        for a, b, k in sorted(base['spans'], reverse=True):
+            if k == 'twprge':
+                t2 = t2[:a] + rng.choice(['Tl5lN-RIOW', 'TI54N-R9lW',
+                                          'Tl0lS-RlOE']) + t2[b:]
+        case.update(text=t2, how='reparse-after-ocr', cfg='')
+    return case
 
 
 def run_fallback(case, ctx, rec, pytrs):
@@ -186,7 +200,21 @@ def run_fallback(case, ctx, rec, pytrs):
                      'kind': case['fallback']})
     with ctx.guard(case):
         rec.reset()
-        d = pytrs.PLSSDesc(text, config=cfg or None)
+        how = case.get('how')
+        if how == 'reparse-after-ocr':
+            # First parsed with ocr_scrub (Twp/Rge's found, a layout deduced),
+            # then parsed again without it: no Twp/Rge is left, the fallback
+            # is the only option -- whatever the object parsed before.
+            d = pytrs.PLSSDesc(text, config='ocr_scrub')
+            d.parse(ocr_scrub=False)
+            ctx.hit('fallback:reparse-after-ocr')
+        elif how == 'required-by-keyword-over-cautious':
+            d = pytrs.PLSSDesc(text, config='sec_colon_cautious',
+                               wait_to_parse=True)
+            d.parse(sec_colon_required=True)
+            ctx.hit('fallback:required-by-keyword')
+        else:
+            d = pytrs.PLSSDesc(text, config=cfg or None)
         ctx.hit('fallback')
         pp = d.pp_desc
         wit = {'hand_offs': hand_offs(rec),
